@@ -16,7 +16,7 @@
    position, C19_shared_once, C19_frame; the invariant [Inv] and its preservation
    by one replacement (C19_inv_step) and by the run (C19_inv_run). *)
 From Coq Require Import List Ascii String NArith Bool.
-From YP Require Import Outcome PyStr PyVal Doc Eyaml C19Spec C19DocSpec C19FilesSpec EyamlProofs EyamlSubst EyamlDoc EyamlFinal EyamlFiles EyamlCount.
+From YP Require Import Outcome PyStr PyVal Doc Eyaml C19Spec C19DocSpec C19FilesSpec C19InvB EyamlProofs EyamlSubst EyamlDoc EyamlFinal EyamlFiles EyamlCount EyamlInvB.
 Import ListNotations.
 Open Scope string_scope.
 Import Ey.
@@ -575,18 +575,24 @@ Theorem C19_encrypt_calls_partial :
       r_exit st = 0 ->
       plain_guard key dec oldk d = true ->
       List.length (r_log st) = expected_encryptions d /\
-      List.length (r_log st) = List.length (r_seen st) + List.length (unanchored_secret_positions d).
+      List.length (r_log st) = List.length (r_seen st) + List.length (unanchored_secret_positions d) /\
+      (* ... and every logged call did reach the cipher (no plaintext was passed through as it is) *)
+      Forall (fun e : N * string * string =>
+                plain_ok (snd (fst e)) = true /\ exists c, enc newk (snd (fst e)) = Some c) (r_log st).
 Proof.
-  intros key enc dec layout oldk newk laws kd d next folded st Hd Hr Hex G. split.
+  intros key enc dec layout oldk newk laws kd d next folded st Hd Hr Hex G. split; [|split].
   - exact (stmt_encrypt_calls_expected key enc dec layout oldk newk laws kd d next folded st Hd Hr Hex G).
   - exact (stmt_encrypt_calls key enc dec layout oldk newk laws kd d next folded st Hd Hr Hex G).
+  - exact (stmt_log_cipher_calls key enc dec layout oldk newk laws kd d next folded st Hd Hr G).
 Qed.
 Print Assumptions C19_encrypt_calls_partial.
 
 (* without the guard the count is false (F19a: a plaintext that begins with the marker is stored
    as it is - here a value encrypted four times under the old key, inside a list that is aliased
    in its parent list: the two positions are visited four times, every visit peels one layer, the
-   run ends with status 0 after FOUR encryptions for TWO unanchored secret positions) *)
+   run ends with status 0 after FOUR calls of encrypt_eyaml - of which ONE reaches the cipher - for
+   TWO unanchored secret positions; replayed on the real tool: status 0, four `decrypt` and one
+   `encrypt` subprocess) *)
 Definition nest_enc (k p : string) : option string :=
   if String.eqb k "new" && String.eqb p "x" then Some "ENC[N,x]" else None.
 Definition nest_dec (k c : string) : option string :=
@@ -629,7 +635,8 @@ Theorem C19_encrypt_calls_refuted :
   exists (enc dec : string -> string -> option string) (d : node) (next : N) (st : rstate),
     cipher_laws string enc dec toy_layout /\ loaded_doc d next /\
     rotate_file string enc dec toy_layout "old" "new" d next [] = Ok st /\ r_exit st = 0 /\
-    List.length (r_log st) = 4 /\ expected_encryptions d = 2.
+    List.length (r_log st) = 4 /\ expected_encryptions d = 2 /\
+    List.length (filter (fun e : N * string * string => negb (is_eyaml_str (snd (fst e)))) (r_log st)) = 1.
 Proof.
   exists nest_enc, nest_dec, nest_doc, 3%N.
   eexists. split; [exact nest_laws|]. split; [exact nest_loaded|].
@@ -651,3 +658,20 @@ Proof.
   exact (proj1 (C19_encrypt_calls_partial string toy3_enc toy3_dec toy_layout "old" "new" C19_ex_toy_laws toy3_keys_differ
                   toy3_before 20 [] _ C19_ex_loaded C19_ex_run eq_refl (proj1 C19_ex_encrypt_calls))).
 Qed.
+
+(* ======================================================================================== *)
+(* The hypothesis [loaded_doc] is decidable: the boolean [c19_loaded_doc_b] (Spec/C19InvB.v) is
+   extracted, and harness/c19.py evaluates it on EVERY document of EVERY case it encodes (request
+   `loaded-doc-b`; a `false` is a disagreement), so the hypothesis of the document-level theorems
+   is tested on the inputs of the tie, not assumed of docenc.py. *)
+Theorem C19_loaded_doc_b_sound :
+  forall (d : node) (next : N), c19_loaded_doc_b d next = true -> loaded_doc d next.
+Proof. exact c19_loaded_doc_b_sound. Qed.
+Print Assumptions C19_loaded_doc_b_sound.
+
+Example C19_ex_loaded_b :
+  c19_loaded_doc_b toy3_before 20 = true /\ c19_loaded_doc_b nest_doc 3 = true
+  /\ c19_loaded_doc_b toy3_before 8 = false                                     (* 8 is not fresh *)
+  /\ c19_loaded_doc_b (toy_doc (toy_leaf 1 None "clash with the key's identity")) 10 = true  (* keys are not value positions *)
+  /\ c19_loaded_doc_b (NSeq (mkinfo 0 None true None) [toy_leaf 1 (Some "x") "a"; toy_leaf 2 (Some "x") "b"]) 3 = false. (* one anchor, two objects *)
+Proof. vm_compute. repeat split. Qed.
